@@ -6,6 +6,7 @@ Thorough == Tier = "thorough"
 Reps == IF Thorough THEN 200 ELSE 20
 Ns == IF Thorough THEN << 2, 3, 4, 8 >> ELSE << 2, 4, 8 >>
 T4 == << 101, 36, 248, 0 >>
+D8(k) == << 0, 0, 1, 138, 207, 146, 32, k >>      \* an end date in milliseconds
 Opts == << << << 97 >>, << 98 >> >>, << << 99, 97, 112, 115 >>, << 102, 82 >> >> >>
 Id(kind, st, ct) == EncIdentity(kind, st, ct, st + ct + 1)
 Addr == EncRouterAddress(5, Zeros(8), << 78, 84, 67, 80, 50 >>, << << << 104, 111, 115, 116 >>, << 49, 46, 50, 46, 51, 46, 52 >> >>, << << 112, 111, 114, 116 >>, << 56, 48 >> >> >>)
@@ -26,6 +27,11 @@ Shapes ==
      << "ReadRouterInfo", EncRouterInfo(Id("key", 7, 4), 7, Zeros(8), << Addr, Addr >>, 0, Opts, 3), << >> >>,
      << "ReadLeaseSet", EncLeaseSet(Id("key", 7, 4), 7, 2, << EncLease(1, T4, Zeros(8)), EncLease(2, T4, Zeros(8)) >>, 3), << >> >>,
      << "ReadLeaseSet", EncLeaseSet(Id("null", 0, 0), 0, 1, << EncLease(1, T4, Zeros(8)) >>, 3), << >> >>,
+     \* end dates newest first, and in no order at all (the expiration queries walk them)
+     << "ReadLeaseSet", EncLeaseSet(Id("key", 7, 4), 7, 3, << EncLease(1, T4, D8(3)), EncLease(2, T4, D8(2)), EncLease(3, T4, D8(1)) >>, 3), << >> >>,
+     << "ReadLeaseSet", EncLeaseSet(Id("key", 7, 4), 7, 4, << EncLease(1, T4, D8(2)), EncLease(2, T4, D8(9)), EncLease(3, T4, D8(1)), EncLease(4, T4, D8(5)) >>, 3), << >> >>,
+     << "ReadLeaseSet2", EncLS2(Id("key", 7, 4), T4, << 2, 88 >>, 0, << >>, Opts, 1, << EncEncKey(4, 32, Fill(32, 1)) >>, 3,
+                               << EncLease2(1, T4, << 101, 36, 249, 9 >>), EncLease2(2, T4, << 101, 36, 249, 1 >>), EncLease2(3, T4, << 101, 36, 249, 5 >>) >>, 7, 3), << >> >>,
      << "ReadLeaseSet2", EncLS2(Id("key", 7, 4), T4, << 2, 88 >>, 1, EncOffline(T4, 7, 7, 2), Opts, 2, << EncEncKey(4, 32, Fill(32, 1)), EncEncKey(0, 256, Fill(256, 2)) >>, 2,
                                << EncLease2(1, T4, T4), EncLease2(2, T4, T4) >>, 7, 3), << >> >>,
      << "ReadMetaLeaseSet", EncMeta(Id("key", 7, 4), T4, << 2, 88 >>, 0, << >>, Opts, 2, << EncMetaEntry(1, 3, T4, 1, Opts), EncMetaEntry(2, 5, T4, 2, << >>) >>, 7, 3), << >> >>,
@@ -47,7 +53,7 @@ SignedShapes ==
      SignedShape("ReadMetaLeaseSet", EncMeta(Id("key", 11, 4), T4, << 2, 88 >>, 0, << >>, Opts, 1, << EncMetaEntry(1, 3, T4, 1, << >>) >>, 11, 5), 11, 0),
      SignedShape("ReadLeaseSet2", EncLS2(Id("key", 7, 4), T4, << 2, 88 >>, 1, EncOffline(T4, 11, 7, 4), Opts, 1, << EncEncKey(4, 32, Fill(32, 1)) >>, 1, << EncLease2(1, T4, T4) >>, 11, 5), 7, 0),
      SignedShape("ReadEncryptedLeaseSet", EncELS(11, T4, << 2, 88 >>, 1, EncOffline(T4, 7, 11, 4), 100, Fill(100, 2), 7, 5), 11, 0),
-     SignedShape("ReadLeaseSet", EncLeaseSet(Id("key", 7, 4), 7, 2, << EncLease(1, T4, Zeros(8)), EncLease(2, T4, Zeros(8)) >>, 5), 7, 0),
+     SignedShape("ReadLeaseSet", EncLeaseSet(Id("key", 7, 4), 7, 2, << EncLease(1, T4, D8(7)), EncLease(2, T4, D8(3)) >>, 5), 7, 0),
      SignedShape("ReadRouterInfo", EncRouterInfo(Id("key", 7, 4), 7, Zeros(8), << AddrSSU >>, 0, Opts, 5), 7, 0) >>
 SignedVecs == Cross2(SignedShapes, Ns, LAMBDA sh, n : [op |-> "Concurrent", n |-> n, reps |-> Reps, cls |-> "signed/n" \o ToString(n)] @@ sh)
 \* distinct values verified at the same time: the genuine structure and a copy with one covered bit flipped (three positions each)
